@@ -665,6 +665,7 @@ class Interp:
         return self.ev(s.iter, st, k)
 
     def for_loop(self, s, ordinal, it, st):
+        it = self.cx.resolve_ref(it, st)
         items = self.concrete_items(it, st)
         if items is not None:
             return self.unrolled(s, items, 0, st)
